@@ -387,10 +387,26 @@ type vkDel struct {
 	chatty bool
 }
 
+// metadata version 999 of a life means "no metadata at all"; views record it as vkNoMeta
+const vkNoMeta = 999999999
+
 func (d *vkDel) NodeMeta(int) []byte {
 	d.mu.Lock()
 	defer d.mu.Unlock()
+	if d.meta%1000 == 999 {
+		return nil
+	}
 	return []byte(strconv.FormatInt(d.meta, 10))
+}
+func vkMetaNum(b []byte) int64 {
+	if len(b) == 0 {
+		return vkNoMeta
+	}
+	mv, err := strconv.ParseInt(string(b), 10, 64)
+	if err != nil {
+		return 0
+	}
+	return mv
 }
 func (d *vkDel) NotifyMsg([]byte)                {}
 func (d *vkDel) GetBroadcasts(overhead, limit int) [][]byte {
@@ -457,7 +473,7 @@ func (s *vkSim) mk(i int) *Memberlist {
 	cfg.AdvertisePort = 7946
 	cfg.Logger = vkDiscardLog
 	cfg.ProbeInterval = s.pi
-	cfg.ProbeTimeout = s.pi / time.Duration(c[3])
+	cfg.ProbeTimeout = vkProbeTimeout(s.pi, c[3])
 	cfg.GossipInterval = s.pi / 5
 	cfg.PushPullInterval = 8 * s.pi
 	if c[5]&vkSlowGossip != 0 {
@@ -496,6 +512,15 @@ func (s *vkSim) mk(i int) *Memberlist {
 	return m
 }
 
+// cfg[3]: ProbeTimeout = ProbeInterval / cfg[3]; 0 stands for one and a half probe intervals (nothing in
+// Config forbids a timeout longer than the interval)
+func vkProbeTimeout(pi time.Duration, div int64) time.Duration {
+	if div == 0 {
+		return pi * 3 / 2
+	}
+	return pi / time.Duration(div)
+}
+
 func (s *vkSim) addr(i int) string { return fmt.Sprintf("10.0.0.%d:7946", i%16+1) }
 
 // views of every live node: kind 8 rows (node, subject, state, incarnation) and kind 9 (node, own incarnation, meta)
@@ -518,6 +543,9 @@ func (s *vkSim) snapshot(kindView, kindOwn int64) {
 		m.nodeLock.RUnlock()
 		s.dels[i].mu.Lock()
 		meta := s.dels[i].meta
+		if meta%1000 == 999 {
+			meta = vkNoMeta
+		}
 		s.dels[i].mu.Unlock()
 		vn.mu.Lock()
 		vn.ev = append(vn.ev, rows...)
@@ -533,10 +561,7 @@ func (s *vkSim) final() {
 			continue
 		}
 		for _, mem := range m.Members() {
-			mv, err := strconv.ParseInt(string(mem.Meta), 10, 64)
-			if err != nil {
-				mv = 0
-			}
+			mv := vkMetaNum(mem.Meta)
 			vn.mu.Lock()
 			vn.logEv(vn.now(), 10, int64(i), vkID(mem.Name), mv)
 			vn.mu.Unlock()
@@ -562,9 +587,10 @@ func (s *vkSim) poll(steps int) {
 			}
 			m.nodeLock.RLock()
 			for _, ns := range m.nodes {
-				if ns.State != StateAlive {
+				// every record that is not Alive, and every record of a member that has left (also an Alive one)
+				if id := vkID(ns.Name); ns.State != StateAlive || (id < vkMax && s.left[id]) {
 					vn.mu.Lock()
-					vn.logEv(vn.now(), 4, int64(i), vkID(ns.Name), int64(ns.State))
+					vn.logEv(vn.now(), 4, int64(i), id, int64(ns.State))
 					vn.mu.Unlock()
 				}
 			}
@@ -578,7 +604,11 @@ func vkRun(t *testing.T, c *vfCase, st *vfStats) {
 	pi := time.Duration(c.Cfg[2]) * time.Millisecond
 	r := &vfRng{s: uint64(c.Cfg[8])*7919 + uint64(len(c.Ops))}
 	rand.Seed(int64(r.next() >> 1))
-	vn := &vkNet{byAddr: map[string]*vkTr{}, r: r, maxLat: pi / time.Duration(c.Cfg[3]) / 2, group: map[int]int{}, block: map[[2]int]bool{},
+	maxLat := vkProbeTimeout(pi, c.Cfg[3]) / 2
+	if maxLat > pi/4 {
+		maxLat = pi / 4
+	}
+	vn := &vkNet{byAddr: map[string]*vkTr{}, r: r, maxLat: maxLat, group: map[int]int{}, block: map[[2]int]bool{},
 		t0: time.Now(), nodes: make([]*Memberlist, vkMax), tapOn: c.Cfg[0] == 1}
 	if c.Cfg[5]&vkEnc != 0 {
 		vn.keys = [][]byte{bytes.Repeat([]byte{7}, 16)}
@@ -736,6 +766,9 @@ func vkRun(t *testing.T, c *vfCase, st *vfStats) {
 func vkCfg(r *vfRng, kind int, N int) []int64 {
 	pi := int64([]int{200, 1000}[r.n(2)])
 	ptdiv := int64(2 + r.n(3))
+	if r.chance(15) {
+		ptdiv = int64(r.n(2)) // ProbeTimeout as long as ProbeInterval or longer: the ack timer of a probe expires before its wait does
+	}
 	flags := int64(r.n(64))
 	if r.chance(25) {
 		flags |= vkSlowWrite
@@ -899,7 +932,11 @@ func vkGenFaults(r *vfRng, thorough bool) vfCase {
 				}
 			}
 		case 5:
-			ops = append(ops, []int64{dt, 1, int64(r.n(N)), int64(1 + r.n(900))})
+			mv := int64(1 + r.n(900))
+			if r.chance(25) {
+				mv = 999 // the metadata is cleared
+			}
+			ops = append(ops, []int64{dt, 1, int64(r.n(N)), mv})
 		case 6:
 			a, b := r.n(N), r.n(N)
 			if a != b {
